@@ -2,9 +2,15 @@ package frame
 
 import "github.com/pion/rtp/codecs"
 
+type verifLocalSrc struct{}
+
+func (verifLocalSrc) Case(name string, lo, hi int) int { return verifCase(name, lo, hi) }
+func (verifLocalSrc) U8(name string) uint8             { return verifU8(name) }
+func (verifLocalSrc) Bytes(name string, n int) []byte  { return verifBytes(name, n) }
+
 // C13: the deprecated AV1Packet + frame assembler path reassembles the same OBUs.
 func VerifC13Assembler() {
-	stream, kept := codecs.VerifHelperAV1Stream(verifBound("C13.obus"), verifBound("C13.payload"))
+	stream, kept := codecs.VerifHelperAV1Stream(verifLocalSrc{}, verifBound("C13.obus"), verifBound("C13.payload"))
 	mtu := verifU16("mtu")
 	verifAssume(mtu >= 2)
 	verifAssume(int(mtu) <= len(stream)+3)
